@@ -78,17 +78,18 @@ Section Tree.
   Variable node : Type.
   Variable key_of : node -> nkey.
   Variable pmatch : N -> node -> bool.
+  Variable pa : bool.
 
-  Notation find_template := (find_template node key_of pmatch).
-  Notation level_find := (level_find node key_of pmatch).
+  Notation find_template := (find_template node key_of pmatch pa).
+  Notation level_find := (level_find node key_of pmatch pa).
   Notation spec_choice := (spec_choice node pmatch).
 
   Lemma find_template_eq : forall q tb imps mode n only,
     find_template q (CSheet tb imps) mode n only =
     let in_imports := first_some (fun c => find_template q c mode n false) imps in
     if only then in_imports
-    else match (if q then find_in_list node pmatch (locate tb (key_of n)) mode n
-                else find_in_list_nq node pmatch (locate tb (key_of n)) mode n) with
+    else match (if q then find_in_list node pmatch pa (locate tb (key_of n)) mode n
+                else find_in_list_nq node pmatch pa (locate tb (key_of n)) mode n) with
          | Some t => Some t
          | None => in_imports
          end.
@@ -101,8 +102,8 @@ Section Tree.
   Qed.
 
   Definition level_find_q (q : bool) (ts : list template) (mode : option N) (n : node) : option template :=
-    if q then find_in_list node pmatch (locate (build_tables ts) (key_of n)) mode n
-    else find_in_list_nq node pmatch (locate (build_tables ts) (key_of n)) mode n.
+    if q then find_in_list node pmatch pa (locate (build_tables ts) (key_of n)) mode n
+    else find_in_list_nq node pmatch pa (locate (build_tables ts) (key_of n)) mode n.
 
   (* the search of the compiled tree = first hit over the levels, highest precedence first *)
   Lemma find_template_levels_q : forall q mode n s,
@@ -131,18 +132,18 @@ Section Tree.
   Proof. intros. exact (find_template_levels_q true mode n s). Qed.
 
   Lemma guards_levels : forall s n,
-    uniform_union_priorities s = true -> filed_where_matching node key_of pmatch s n = true ->
-    levels_guard node key_of pmatch (postorder s) n.
+    pa = true \/ uniform_union_priorities s = true -> filed_where_matching node key_of pmatch s n = true ->
+    levels_guard node key_of pmatch pa (postorder s) n.
   Proof.
     unfold uniform_union_priorities, filed_where_matching, all_templates, levels_guard.
     intros s n Hu Hf ts Hts. split.
-    - exact (forallb_concat _ _ Hu ts Hts).
+    - destruct Hu as [Hu|Hu]; [left; exact Hu | right; exact (forallb_concat _ _ Hu ts Hts)].
     - exact (forallb_concat _ _ Hf ts Hts).
   Qed.
 
   (* main theorem, quiet path *)
   Lemma find_template_spec_lemma : forall s mode n,
-    uniform_union_priorities s = true -> filed_where_matching node key_of pmatch s n = true ->
+    pa = true \/ uniform_union_priorities s = true -> filed_where_matching node key_of pmatch s n = true ->
     spec_choice (rules_of s) mode n (find_template true (compile s) mode n false).
   Proof.
     intros s mode n Hu Hf. rewrite (proj1 (find_template_levels mode n s)).
@@ -151,7 +152,7 @@ Section Tree.
 
   (* apply-imports: only the rules imported into the stylesheet, and among them the maximum *)
   Lemma apply_imports_lemma : forall s mode n,
-    uniform_union_priorities s = true -> filed_where_matching node key_of pmatch s n = true ->
+    pa = true \/ uniform_union_priorities s = true -> filed_where_matching node key_of pmatch s n = true ->
     spec_choice (imported_rules s) mode n (find_template true (compile s) mode n true).
   Proof.
     intros s mode n Hu Hf. rewrite (proj2 (find_template_levels mode n s)).
